@@ -2,6 +2,7 @@
 use crate::run::Builder;
 pub mod mutex;
 pub mod sem;
+pub mod condvar;
 pub mod chan;
 pub mod rwlock;
 pub mod flag;
@@ -10,6 +11,7 @@ pub fn lookup(name: &str) -> Option<Builder> {
     match name {
         "mutex" => Some(mutex::build),
         "sem" => Some(sem::build),
+        "condvar" => Some(condvar::build),
         "chan" => Some(chan::build),
         "rwlock" => Some(rwlock::build),
         "flag" => Some(flag::build),
